@@ -61,6 +61,9 @@ type Rec struct {
 	FailAt int
 	Short  int
 	nWrite int
+
+	// StrictCodes: WriteHeader refuses a status outside 100..999 by a panic, like net/http does
+	StrictCodes bool
 }
 
 var errInjected = errors.New("injected write error")
@@ -70,6 +73,9 @@ func NewRec() *Rec { return &Rec{H: http.Header{}} }
 func (r *Rec) Header() http.Header { return r.H }
 
 func (r *Rec) WriteHeader(code int) {
+	if r.StrictCodes && (code < 100 || code > 999) {
+		panic(fmt.Sprintf("invalid WriteHeader code %v", code))
+	}
 	if r.HeaderAtCommit == nil {
 		r.HeaderAtCommit = r.H.Clone()
 	}
